@@ -1138,8 +1138,10 @@ impl<'a> CompactionIterator<'a> {
 			} else if is_latest && is_replace {
 				// Latest REPLACE: not stale (will be output)
 				false
-			} else if is_hard_delete {
-				// Older DELETE: always stale (only latest tombstone matters)
+			} else if is_hard_delete && !self.enable_versioning {
+				// Older DELETE without versioning: stale (only latest tombstone matters).
+				// With versioning it is a version like any other (retention decides
+				// below): it is the barrier that keeps the versions under it erased.
 				true
 			} else if has_set_with_delete && !is_replace {
 				// REPLACE found: all older non-REPLACE versions are stale
